@@ -90,6 +90,10 @@ pub use streams::{
 };
 
 mod timer;
+#[cfg(feature = "verif")]
+mod verif;
+#[cfg(feature = "verif")]
+pub use verif::{VerifProbe, VerifStreams};
 use crate::congestion::Controller;
 use timer::{Timer, TimerTable};
 
